@@ -64,7 +64,7 @@ func genComponent(rng *rand.Rand) float64 {
 	case 3:
 		return (rng.Float64()*2 - 1) * 1e6
 	case 4:
-		return []float64{0, 1, -1, 0.5, 1.0 / 3, 1e-300, 123456.789}[rng.Intn(7)]
+		return []float64{0, 1, -1, 0.5, 1.0 / 3, 1e-300, 123456.789, 1e19, -3e25, 9223372036854775808, -9223372036854775808, 4294967296, 1e15}[rng.Intn(13)] // whole numbers beyond int64 too
 	default:
 		return rng.Float64()*2 - 1
 	}
